@@ -313,6 +313,18 @@ const RUN_PALETTE: [[u32; 3]; 6] = [
 ];
 
 pub fn float_pixel(seed: u64, mode: u64, i: u64) -> [u32; 3] {
+    if mode == 7 {
+        // grey pixels whose value sits on (or an ulp or two beside) a quantisation boundary
+        // k + 0.5 of some integer format: where a fused and an unfused multiply-add, or two
+        // differently ordered sums, round to different codes
+        let r = mix(seed, 0xb000 + i);
+        let (range, black): (f64, f64) = [(219.0, 16.0), (255.0, 0.0), (876.0, 64.0), (1023.0, 0.0), (224.0, 128.0), (3504.0, 256.0), (65535.0, 0.0)][(r % 7) as usize];
+        let k = (r >> 8) % (range as u64 + 1);
+        let v = ((k as f64 + 0.5) - black) / range;
+        let mut bits = (v as f32).to_bits();
+        bits = bits.wrapping_add(((r >> 40) % 5) as u32).wrapping_sub(2);
+        return [bits, bits, bits];
+    }
     if mode == 6 {
         // runs: pixel i belongs to the run that started at the last index whose "start" bit is
         // set; inside a run every pixel is the run's palette entry, with the sign of its zeros
@@ -457,7 +469,8 @@ pub fn build_frame<T: Pixel>(op: &Op) -> Frame<T> {
     let mk = |pl: usize| -> Plane<T> {
         let (w, h) = plane_dims(op, pl);
         let (xdec, ydec) = match pl {
-            0 => (0, 0),
+            // the luma plane's decimation fields are the caller's business: no rule mentions them
+            0 => (op.t as usize, op.p as usize),
             1 => (g[4] as usize, g[5] as usize),
             _ => (g[8] as usize, g[9] as usize),
         };
@@ -604,7 +617,7 @@ pub fn yuv_model_val(op: &Op) -> Val {
     let pl = |i: usize| {
         let (w, h) = plane_dims(op, i);
         let (xdec, ydec) = match i {
-            0 => (0, 0),
+            0 => (op.t as usize, op.p as usize),
             1 => (op.geo[4] as usize, op.geo[5] as usize),
             _ => (op.geo[8] as usize, op.geo[9] as usize),
         };
